@@ -257,6 +257,11 @@ func (e *Env) VerifyFunc(fn *ssa.Function, ct *Contract, maxPaths int) *FuncResu
 			fkey = "iface:" + ct.Key + "@" + fkey
 		}
 	}
+	if ct != nil && ct.Unroll > 0 {
+		saved := e.Cfg.MaxBlockVis
+		e.Cfg.MaxBlockVis = ct.Unroll + 1
+		defer func() { e.Cfg.MaxBlockVis = saved }()
+	}
 	paths, capped := e.Explore(maxPaths, func(ex *Exec) {
 		ex.TopKey = fkey
 		ex.TopFn = fn
